@@ -63,8 +63,14 @@ def fill(chk, NA):
         "Partial: on every feasible path (all lengths, every integer width) of every skeleton family plus degenerate inputs the pipeline returns a str without raising, ends in a newline, adds no NUL/placeholder "
         "and no trailing space on blank code lines. Hangs, running time and arbitrary Unicode are not SMT objects and are NOT claimed.",
         A12 + " Only the well-formedness half of the property is decided; the timing half is declined (see DESIGN.md).", "dynamic symbolic execution; exceptions on feasible paths are replayed and reported", "DESIGN.md §3 C12")
+    chk("C17", "model_checking",
+        "Real FileResolver.resolve on a real temp tree materialised per path from solver-chosen presence bits of a 13-entry skeleton (nested dirs, default/user-excluded dirs, ignore file, links to a file inside / "
+        "in an excluded dir / outside, link to a dir), with three file sizes and the size limit as unbounded z3 Ints (injected through Path.stat and the config) and five settings bits; 11 argument sets. "
+        "Result must be absolute, sorted, unique, equal to a reference computed from the tree specification, and invariant under argument reversal and reversed listing order.",
+        "Bound = the skeleton and the argument sets; presence/setting bits are enumerated by solver forks, the size/limit order relations are decided symbolically; replay materialises the tree with real sizes. gitignore handling is C18's subject (no .gitignore in this tree).",
+        "symbolic tree (bits + Int sizes) through the real resolver on a real file system vs reference walk of the specification", "DESIGN.md §3 C17", engine="symlen+tmp-tree")
     pending = "check not built yet in this revision (work in progress; see DESIGN.md §3 for the plan)"
-    for p in ["C17","C18"]:
+    for p in ["C18"]:
         NA[p] = pending
     NA["C13"] = ("quantifies over thread interleavings and process histories of CPython interpreter state; no available solver engine models a scheduler or a symbolic Python heap, "
                  "and a bounded history with symbolic word lengths would be a concrete test wearing a solver (DESIGN.md §3 C13)")
